@@ -93,6 +93,10 @@ let () =
           let evs = [Data c] in
           let ((e, b), _) = read_all h false fixed (fuel_of evs) (base_of evs "-") dg sz in
           (match e with None -> "OK/" ^ digest_str b | Some e -> err_name e) in
+      let seen = ref [] in
+      (* final sweep: every descriptor of the history is queried again on the final state *)
+      let sweep (observe : n list -> desc -> string) =
+        " Q=" ^ String.concat "," (List.rev_map (fun (nm, d) -> observe nm d) !seen) in
       let rec pushes i rest (step : n list -> desc -> bool -> ev list -> string) =
         if i = 0 then () else
         match rest with
@@ -102,6 +106,7 @@ let () =
             | Some i -> (str_of_hex (String.sub name 0 i), str_of_hex (String.sub name (i + 1) (String.length name - i - 1)))
             | None -> (str_of_hex name, str_of_hex name) in
           cur_name_path := (nm, pth);
+          seen := (nm, d) :: !seen;
           Buffer.add_string buf (step nm d (comb = "1") (parse_script sc));
           Buffer.add_string buf " ";
           pushes (i - 1) rest' step
@@ -118,7 +123,9 @@ let () =
           let c = mem_get !st d in
           Printf.sprintf "%s X%d F%s" (res_name e) (if c = None then 0 else 1) (fetch_obs c d.d_dg d.d_sz));
         Buffer.add_string buf ("B=" ^ listing (List.map (fun (d, c) ->
-          Printf.sprintf "%s/%s/%d/%s" (hex_of_str d.d_mt) (hex_of_str d.d_dg) (int_of_z d.d_sz) (digest_str c)) !st))
+          Printf.sprintf "%s/%s/%d/%s" (hex_of_str d.d_mt) (hex_of_str d.d_dg) (int_of_z d.d_sz) (digest_str c)) !st));
+        Buffer.add_string buf (sweep (fun _ d -> let c = mem_get !st d in
+          Printf.sprintf "X%d/F%s" (if c = None then 0 else 1) (fetch_obs c d.d_dg d.d_sz)))
       end else if kind = "oci" || (String.length kind > 4 && String.sub kind 0 4 = "olim") then begin
         let st = ref [] in
         pushes n rest (fun _ d comb evs ->
@@ -132,7 +139,12 @@ let () =
           let f = if valid_digest d.d_dg then fetch_obs (oci_get !st d.d_dg) d.d_dg d.d_sz else "BAD_DIGEST" in
           Printf.sprintf "%s X%s F%s" (res_name e) xs f);
         Buffer.add_string buf ("B=" ^ listing (List.map (fun (dg, c) ->
-          Printf.sprintf "%s/%s" (hex_of_str dg) (digest_str c)) !st) ^ " I=0")
+          Printf.sprintf "%s/%s" (hex_of_str dg) (digest_str c)) !st) ^ " I=0");
+        Buffer.add_string buf (sweep (fun _ d ->
+          let (xe, x) = oci_exists !st d in
+          let xs = match xe with Some e -> err_name e | None -> if x then "1" else "0" in
+          let f = if valid_digest d.d_dg then fetch_obs (oci_get !st d.d_dg) d.d_dg d.d_sz else "BAD_DIGEST" in
+          Printf.sprintf "X%s/F%s" xs f))
       end else if kind = "file" then begin
         let st = ref { f_files = []; f_names = []; f_d2p = []; f_fb = [] } in
         pushes n rest (fun name d comb evs ->
@@ -143,7 +155,9 @@ let () =
           let f = fetch_obs (file_fetch !st name d) d.d_dg d.d_sz in
           Printf.sprintf "%s X%d F%s" (res_name e) (if x then 1 else 0) f);
         Buffer.add_string buf ("B=" ^ listing (List.map (fun (nm, c) ->
-          Printf.sprintf "%s/%s" (hex_of_str nm) (digest_str c)) !st.f_files))
+          Printf.sprintf "%s/%s" (hex_of_str nm) (digest_str c)) !st.f_files));
+        Buffer.add_string buf (sweep (fun name d ->
+          Printf.sprintf "X%d/F%s" (if file_exists !st name d then 1 else 0) (fetch_obs (file_fetch !st name d) d.d_dg d.d_sz)))
       end else failwith ("bad store kind " ^ kind));
       Printf.printf "%s %s\n" id (Buffer.contents buf)
     | id :: "PF" :: hs :: kind :: n :: rest ->
